@@ -560,7 +560,15 @@ def task_helper(t):
 def run(ctx):
     quick = ctx.tier == 'quick'
     depth = 4 if quick else 5
-    st = explore.bfs(ctx, FACTORY, {'small': quick}, max_depth=depth, ops_chunk=6)
+    if quick:
+        with ctx.sub_budget(0.55):
+            st = explore.bfs(ctx, FACTORY, {'small': True}, max_depth=depth, ops_chunk=6)
+        # two activatable names at once (their service files run the same program with different arguments): shallower
+        with ctx.sub_budget(0.8):
+            st2 = explore.bfs(ctx, FACTORY, {'small': False}, max_depth=3, ops_chunk=6)
+        st = dict(st, states=st['states'] + st2['states'], transitions=st['transitions'] + st2['transitions'], two_names={'states': st2['states'], 'transitions': st2['transitions'], 'completed_depth': st2['completed_depth']})
+    else:
+        st = explore.bfs(ctx, FACTORY, {'small': False}, max_depth=depth, ops_chunk=6)
     cases = helper_cases()
     workdir = os.path.join(vbox.RUN_ROOT, 'helper')
     os.makedirs(workdir, exist_ok=True)
@@ -582,7 +590,7 @@ def run(ctx):
     ctx.coverage.update({
         'states': st['states'], 'transitions': st['transitions'] + nhelper, 'traces_validated_against_impl': st['transitions'] + nhelper,
         'activation_histories': {'states': st['states'], 'transitions': st['transitions'], 'completed_depth': st['completed_depth'], 'fixpoint': st['fixpoint']},
-        'helper_invocations': nhelper, 'helper_executions': nran,
+        'helper_invocations': nhelper, 'helper_executions': nran, 'two_names_variant': st.get('two_names'),
         'bound': 'bus: 2 senders, %d activatable names + 1 with a missing binary, take-name / take-other-name / stub exit 0,1,SIGSEGV / start timeout / disconnect, BFS depth %d; helper: %d (name x layout x Name x Exec form x User x duplicate-section) combinations' %
                  (1 if quick else 2, depth, nhelper),
     })
